@@ -28,13 +28,13 @@ use std::{cmp, mem};
 
 /// Regexes used to parse custom commands.
 const CUSTOM_SQL_REGEXES: [&str; 7] = [
-    r"(?i)^ *SET SHARDING KEY TO '?([0-9]+)'? *;? *$",
-    r"(?i)^ *SET SHARD TO '?([0-9]+|ANY)'? *;? *$",
-    r"(?i)^ *SHOW SHARD *;? *$",
-    r"(?i)^ *SET SERVER ROLE TO '(PRIMARY|REPLICA|ANY|AUTO|DEFAULT)' *;? *$",
-    r"(?i)^ *SHOW SERVER ROLE *;? *$",
-    r"(?i)^ *SET PRIMARY READS TO '?(on|off|default)'? *;? *$",
-    r"(?i)^ *SHOW PRIMARY READS *;? *$",
+    r"(?i-u)^ *SET SHARDING KEY TO '?([0-9]+)'? *;? *$",
+    r"(?i-u)^ *SET SHARD TO '?([0-9]+|ANY)'? *;? *$",
+    r"(?i-u)^ *SHOW SHARD *;? *$",
+    r"(?i-u)^ *SET SERVER ROLE TO '(PRIMARY|REPLICA|ANY|AUTO|DEFAULT)' *;? *$",
+    r"(?i-u)^ *SHOW SERVER ROLE *;? *$",
+    r"(?i-u)^ *SET PRIMARY READS TO '?(on|off|default)'? *;? *$",
+    r"(?i-u)^ *SHOW PRIMARY READS *;? *$",
 ];
 
 /// Custom commands.
